@@ -1562,7 +1562,7 @@ func hRunHistory(t *testing.T, out *vOut, r *rand.Rand, id int) {
 		out.Stat("directed_failed_write_scenarios", 1)
 	} else if id%8 == 4 {
 		four := gSpec{LB: true, Fam: "ipv4", ClusterOK: true, Pol: "single", Ports: []int{0}}
-		switch r.Intn(3) {
+		switch r.Intn(4) {
 		case 0:
 			// directed: a dual-stack Service gives back ONE of its two addresses (it becomes single-stack); the
 			// Service waiting for that family must get it in the same settling period
@@ -1614,6 +1614,31 @@ func hRunHistory(t *testing.T, out *vOut, r *rand.Rand, id int) {
 				checkQuiescent()
 			}
 			out.Stat("directed_malformed_request_restart_scenarios", 1)
+		case 2:
+			// directed: pool flap - the pool of a holder is removed (the holder moves elsewhere) and comes back; every
+			// address of the restored range must be usable again (no ghost holder left in the allocator)
+			pa := gPool{Name: "pa", CIDRs: []string{"10.0.0.4/31"}, Auto: true}
+			pb := gPool{Name: "pb", CIDRs: []string{"10.0.3.0/32"}, Auto: true}
+			doPools([]gPool{pa, pb})
+			doReload(-1)
+			doPut("ns1/a", gSpec{LB: true, Fam: "ipv4", ClusterOK: true, Pol: "single", Ports: []int{0}, WantPool: "pa"})
+			doSvc("ns1/a", r.Intn(2) == 0) // sometimes the address is chosen while the status write fails
+			if drain() {
+				checkQuiescent()
+			}
+			mover := gSpec{LB: true, Fam: "ipv4", ClusterOK: true, Pol: "single", Ports: []int{0}}
+			doPut("ns1/a", mover)
+			doPools([]gPool{pb})
+			if drain() {
+				checkQuiescent()
+			}
+			doPools([]gPool{pa, pb})
+			doPut("ns1/b", gSpec{LB: true, Fam: "ipv4", ClusterOK: true, Pol: "single", Ports: []int{0}, WantPool: "pa"})
+			doPut("ns2/c", gSpec{LB: true, Fam: "ipv4", ClusterOK: true, Pol: "single", Ports: []int{0}, WantPool: "pa"})
+			if drain() {
+				checkQuiescent()
+			}
+			out.Stat("directed_pool_flap_scenarios", 1)
 		default:
 			// directed: a Service kept terminating by a finalizer still holds its address across a restart
 			doPools([]gPool{{Name: "pa", CIDRs: []string{"10.0.0.0/30"}, Auto: true}})
